@@ -53,6 +53,8 @@ func builtinDescription(p *Prog, T *Terms) (name, desc string) {
 }
 
 func runC12(r *Run, p *Prog) {
+	// X4: the name arrives exactly as given only if the frame is the encoder's rendering of the reply (no hand-built frames)
+	siblingRules(r, p, "C02", []string{"F1"}, "X4")
 	ro := DiscoverRoles(p)
 	T, cg := ro.T, ro.CG
 	wfn := fnSet(ro.WFuncs)
